@@ -111,7 +111,10 @@ def _task(args: tuple) -> dict:
     seed = run_seed(verif_seed, pid, idx)
     rng = random.Random(seed)
     try:
-        case = prop.gen_case(rng, tier)
+        if hasattr(prop, "gen_case_idx"):
+            case = prop.gen_case_idx(idx, rng, tier)
+        else:
+            case = prop.gen_case(rng, tier)
         case["run_seed"] = seed
         res = execute_case(pid, case)
     except Exception:
